@@ -57,6 +57,9 @@ def decompress():
 
             def on_next(i):
                 try:
+                    if len(i) == 0:
+                        # nothing to feed; the decompressobj rejects any call after the end of the frame
+                        return
                     data = decompressor.decompress(i)
                     observer.on_next(data)
                 except Exception as e:
